@@ -86,16 +86,48 @@ impl SessionShardInterface {
         // First check for a deduplication hit in the session directory, then in the common cache directory.
         let res = self.session_shard_manager.chunk_hash_dedup_query(query_hashes).await?;
 
+        #[cfg(xet_verif)]
+        if res.is_some() {
+            Self::verif_report_answer("session", query_hashes.len(), &res);
+        }
+
         if res.is_some() {
             return Ok(res);
         }
 
+        #[cfg(xet_verif)]
+        {
+            let res = self.cache_shard_manager.chunk_hash_dedup_query(query_hashes).await?;
+            Self::verif_report_answer("cache", query_hashes.len(), &res);
+            return Ok(res);
+        }
+
         // Now query in the cache shard manager.
+        #[allow(unreachable_code)]
         Ok(self.cache_shard_manager.chunk_hash_dedup_query(query_hashes).await?)
+    }
+
+    #[cfg(xet_verif)]
+    fn verif_report_answer(source: &'static str, query_len: usize, res: &Option<(usize, FileDataSequenceEntry)>) {
+        utils::verif_hooks::event("session.dedup_answer", || match res {
+            Some((n, fse)) => format!(
+                "{source} {query_len} {n}:{}:{}:{}:{}:{}",
+                fse.cas_hash.hex(),
+                fse.cas_flags,
+                fse.unpacked_segment_bytes,
+                fse.chunk_index_start,
+                fse.chunk_index_end
+            ),
+            None => format!("{source} {query_len} -"),
+        });
     }
 
     // Add the cas information to the session shard manager
     pub async fn add_cas_block(&self, cas_block_contents: MDBCASInfo) -> Result<()> {
+        #[cfg(xet_verif)]
+        utils::verif_hooks::event("session.add_cas_block", || {
+            format!("{} {}", cas_block_contents.metadata.cas_hash.hex(), cas_block_contents.chunks.len())
+        });
         Ok(self.session_shard_manager.add_cas_block(cas_block_contents).await?)
     }
 
